@@ -125,10 +125,10 @@ def run(ck):
                 (sim, (1, "k1zero", 16, 400, 50)), (sim, (2, "k200new", 10, 300, 50)),
                 (sim, (3, "k1new", 16, 200, 50))]
     else:
-        jobs = [(strict, ("k1zero", 8)), (strict, ("k200new", 7)), (strict, ("k1new", 6)),
-                (cover, ("k1zero", 6)), (cover, ("k200new", 5)), (cover, ("k1new", 4, False)),
-                (sim, (1, "k1zero", 24, 40000, 80)), (sim, (2, "k200new", 14, 20000, 80)),
-                (sim, (3, "k1new", 24, 10000, 80)), (sim, (4, "k1zero", 10, 30000, 30))]
+        jobs = [(strict, ("k1zero", 8)), (strict, ("k200new", 6)), (strict, ("k1new", 5)),
+                (cover, ("k1zero", 5)), (cover, ("k200new", 4)), (cover, ("k1new", 3, False)),
+                (sim, (1, "k1zero", 24, 12000, 80)), (sim, (2, "k200new", 14, 8000, 80)),
+                (sim, (3, "k1new", 24, 4000, 80)), (sim, (4, "k1zero", 10, 6000, 30))]
     with ThreadPoolExecutor(max_workers=3 if quick else 4) as ex:
         futs = [ex.submit(f, *a) for f, a in jobs]
         for f in futs:
